@@ -455,6 +455,21 @@ func init() {
 						}
 					}
 				}
+				// runes whose Unicode simple case folding is not what lower-casing gives (long s, Kelvin sign, dotted capital I,
+				// final sigma, sharp s): names are compared with folding on Windows, exactly on Linux
+				if c.Shard == 0 {
+					folds := []string{"s", "S", "\u017f", "k", "K", "\u212a", "i", "I", "\u0130", "\u0131", "\u03c3", "\u03c2", "\u03a3", "\u00df", "\u1e9e", "\u00e9", "\u00c9", "\u00b5", "\u03bc"}
+					roots := []string{ref.sep, "C:" + ref.sep, ref.sep + ref.sep + "h" + ref.sep + "s" + ref.sep, ""}
+					for _, rt := range roots {
+						for _, x := range folds {
+							for _, y := range folds {
+								k.binary(rt+x, rt+y)
+								k.binary(rt+"d"+ref.sep+x+ref.sep+"e", rt+"d"+ref.sep+y+ref.sep+"f")
+								k.binary(ref.sep+ref.sep+x+ref.sep+"s"+ref.sep+"a", ref.sep+ref.sep+y+ref.sep+"s"+ref.sep+"b")
+							}
+						}
+					}
+				}
 				k.fuzz(c.Pick(300000, 12000000) / c.NShards)
 				// PathIterator
 				sep := ref.sep
